@@ -9,6 +9,7 @@ from props import _units as X
 ID = "C12"
 SECTIONS = ["units"]
 LEAN_MODULES = ["QExPy.Props.C12"]
+LEMMA_MODULES = ["QExPy.Lemmas.UnitParse", "QExPy.Lemmas.ParseEquiv", "QExPy.Lemmas.ParseAst", "QExPy.Lemmas.Lex", "QExPy.Lemmas.LexRound", "QExPy.Lemmas.ParseSpec"]
 THEOREMS = ["QExPy.C12_scanner_pins_patterns", "QExPy.C12_precedence_table",
             "QExPy.C12_tokens_equiv", "QExPy.C12_parse_eq_ref", "QExPy.C12_lex_total",
             "QExPy.C12_lex_roundtrip", "QExPy.C12_sound", "QExPy.C12_complete",
